@@ -37,7 +37,10 @@ _TEXT_ATOMS = gen.META + gen.META_PIPE + ["a b", "\u00e9", "a\u00a0b", "\u00a9 2
                                           "&#60;b&#62;", "AT&T", "1 < 2 > 0", "a;>b", "<bar>",
                                           "<input>", "tom & jerry", "</v>", "<v>", "<u2>",
                                           "\u00c9mile \u00c7a \u00d1u", "\u03a9 \u03c9", "\u2020 \u2021",
-                                          "5\u2032 3\u2033", "\u00c0 \u00e0 \u00d6 \u00f6", "\u20ac 5 \u00bd"]
+                                          "5\u2032 3\u2033", "\u00c0 \u00e0 \u00d6 \u00f6", "\u20ac 5 \u00bd",
+                                          # words that end in a space other than U+0020 (a source-line wrap
+                                          # may follow them directly)
+                                          "Prix:\u00a0", "100\u00a0", "\u65e5\u672c\u3000", "em\u2003", "\u00a0"]
 
 
 def _authored(pipe=True):
